@@ -303,6 +303,11 @@ where
                                     &mut shift_reduce,
                                     stidx,
                                 );
+                                // %nonassoc can remove the action entirely, in which case this
+                                // (state, token) pair no longer has an action.
+                                if let Action::Error = StateTable::<StorageT>::decode(actions[off]) {
+                                    state_actions.set(off, false);
+                                }
                             }
                             Action::Accept => panic!("Internal error"),
                             Action::Error => {
